@@ -199,8 +199,22 @@ def run_eop(ctx, maxsteps):
     for d in days:
         tu = max(v for (dd, v) in steps if dd <= d)
         table[str(d)] = [ut1[d], tu]
+    # the values of the two finals files, read independently: every 9th day (thorough: every day), the first and last 40 tabulated days
+    import os
+    pole = os.path.join(REPO, "tests", "data", "pole")
+    f80 = eopgen.read_finals_full(os.path.join(pole, "finals.all"))
+    f00 = eopgen.read_finals_full(os.path.join(pole, "finals2000A.all"))
+    common = sorted(d for d in f80 if d in f00 and f80[d]["ut1_utc"] is not None)
+    pick = set(common[:40] + common[-40:] + (common if ctx.tier == "thorough" else common[::9]))
+    eopvals = {}
+    for d in sorted(pick):
+        a, b = f80[d], f00[d]
+        eopvals[str(d)] = {"x": b["x"], "y": b["y"], "ut1_utc": b["ut1_utc"], "lod": b["lod"], "dpsi": a["d1"], "deps": a["d2"], "dx": b["d1"], "dy": b["d2"]}
+    ctx.extra["eop_days_compared"] = len(eopvals)
+    keys = sorted(eopvals)
     chunks = [behs[i::8] for i in range(8) if behs[i::8]]
-    for res in ctx.harness_parallel("daterange_replay.py", [{"repo": REPO, "eop_behaviours": c, "table": table} for c in chunks], procs=8):
+    for res in ctx.harness_parallel("daterange_replay.py", [{"repo": REPO, "eop_behaviours": c, "table": table, "eopvals": {k: eopvals[k] for k in keys[i::8]}}
+                                                            for i, c in enumerate(chunks)], procs=8):
         ctx.absorb(res)
     ctx.extra["eop_behaviours"] = len(behs)
 
